@@ -7,8 +7,9 @@ from lib import gN, gbool, glist, gopt, hexs
 
 HEADER = "From CJ Require Import Common.Base C12.Model C12.Run.\n"
 PKG = "pkg/regserver/regprocessor"
-FILES = {"zz_verif_driver_test.go": "c12/c12_driver_test.go"}
+FILES = {"zz_verif_driver_test.go": "c12/c12_driver_test.go", "zz_verif_c12_core.go": "c12/c12_core.go"}
 EXTRA = {"pkg/station/lib/zz_verif_export_c12.go": "c12/lib_export.go"}
+EXTRA_FE = dict(EXTRA, **{"pkg/regserver/regprocessor/zz_verif_c12_core.go": "c12/c12_core.go"})
 
 V4POOL = ["9.8.7.6", "192.0.2.55", "10.1.0.9", "10.2.3.4", "203.0.113.200", "255.255.255.7", "1.0.0.1"]
 V6POOL = ["fd00::1", "2001:db8::77", "2001:48a8:687f:1::5"]
